@@ -723,7 +723,7 @@ pub fn gen_struct(rng: &mut Rng, class: Class) -> Item {
             }
             if rng.chance(1, 250) {
                 // extreme nesting: [parent(...)] one or two hundred levels deep
-                let depth = rng.range(100, 400);
+                let depth = rng.range(100, 260);
                 let mut inner = "leaf".to_string();
                 for d in 0..depth {
                     // now and then a level has a sibling with an instruction of its own
